@@ -58,6 +58,24 @@ theorem tree_every_mutator_marks :
 /-- flush_db and the sweeper mark what they remove. -/
 theorem tree_flush_and_sweeper_mark : flushMarks = true ∧ marksOf "expiration_cleanup_loop" "key" = true := by decide
 
+/-- The reviewed conditional marks: `mark_modified(key)` calls that sit alone inside an `if <condition>` on an outcome
+    computed before.  Each of these conditions is exactly "the call changed the key": a stream entry was trimmed /
+    deleted, a list element was popped / removed, a set member was added / removed / popped — when the count is 0 the
+    value is what it was.  Every other mark of the table sits next to the mutation it reports. -/
+def reviewedConditionalMarks : List (String × String × String) :=
+  [("xtrim", "key", "trimmed > 0"), ("xdel", "key", "deleted > 0"), ("lpop", "key", "element.is_some()"),
+   ("rpop", "key", "element.is_some()"), ("lrem", "key", "removed > 0"), ("sadd", "key", "added > 0"),
+   ("srem", "key", "removed > 0"), ("spop", "key", "!result.is_empty()")]
+
+/-- "Reaches `mark_modified`" in `Gen.storageFns` is per function and key parameter, not per path.  The marks that
+    depend on an outcome are exactly the reviewed ones: a NEW conditional mark (e.g. marking a destination only when
+    a value was replaced) breaks this theorem, and the TCP matrix exercises every branch (same shard / other shard,
+    existing / missing destination, emptied / not) to find the input. -/
+theorem tree_conditional_marks_reviewed : Gen.conditionalMarks = reviewedConditionalMarks := by decide
+
+/-- The shard function of the engine is the model's: 16 shards, FNV-1a 64 (`get_shard_index`). -/
+theorem tree_shard_function : Gen.shardConsts = (16, fnvOffset, fnvPrime) := by decide
+
 /-- The watch list of the current tree is the prescribed one: entries are keyed by (database, key) and checked /
     unregistered there (3ed7039), a second WATCH keeps the first baseline (180a098), WATCH drops an expired stored
     value before it registers (cf01a0f).  A regression of any of the three breaks this theorem. -/
